@@ -43,13 +43,14 @@ geometries; argument forms, untouched inputs, instance reuse, radii leakage; rad
 (Scenarios, LemmaFallbackIn); user cut-off of compute_atom_weight (ProgramC, CutFamily, LemmaCutFamily);
 Hirshfeld against the tabulated pro-atom data at the tabulated radii (HirshProgram, LemmaHirsh).
 New tolerances (largest value seen on the pinned tree over seeds 0..5 quick + thorough -> tolerance):
-  longdouble inputs vs float64 reference (scaled like spec_3d)   6.2e-16 -> 1e-11 ("spec_3d")
+  longdouble inputs vs float64 reference (scaled like spec_3d)   1.4e-15 -> 1e-11 ("spec_3d")
   all other argument forms, instance reuse, radii leak            0 (bitwise) -> 1e-12 ("route")
-  float32 inputs vs the same values as float64, near points       6.5e-07 -> 1e-3 ("float32")
-  radii-override scenarios / user cut-off vs spec (scaled)        2.7e-16 -> 1e-11 ("spec_3d")
-  Hirshfeld density / share at tabulated radii (relative)         4.1e-14 -> 1e-9 ("hirsh_table"; budget: points
+  float32 inputs vs the same values as float64, near points,
+        order 3 only (order 6 reaches 2.7e-06)                    6.5e-07 -> 1e-3 ("float32")
+  radii-override scenarios / user cut-off vs spec (scaled)        5.3e-16 -> 1e-11 ("spec_3d")
+  Hirshfeld density / share at tabulated radii (relative)         4.7e-14 -> 1e-9 ("hirsh_table"; budget: points
         hit the tabulated radius to 1e-13, |d ln rho / dr| <= 16 on the knots used -> 2e-12)
-  Hirshfeld rigid motion / relabelling, near points               8.9e-16 -> 1e-9 ("hirsh_rigid")
+  Hirshfeld rigid motion / relabelling, near points               1.4e-15 -> 1e-9 ("hirsh_rigid")
 The seeded X-mutants move these by >= 1e-2 (float32: the clause only has to notice exceptions and O(1) errors).
 Harness speed: the exact / 50-digit runs of the spec programs use expr_np.run_program_scalar (same arithmetic
 as run_program, cross-checked against it once per worker; MachineryError on any difference).
